@@ -27,6 +27,10 @@ const TARGETED: &[(&str, &str)] = &[
     ("three-parties", "pub fn main(x: bool, y: u8, z: bool) -> (bool, u8) {\n  (x ^ z, if x { y } else { !y })\n}\n"),
     ("array-parties", "pub fn main(a: [u8; 3]) -> u8 {\n  a[0] ^ a[1] & a[2]\n}\n"),
     ("duplicate-const", "pub fn main(x: bool) -> (bool, bool, bool, bool) {\n  (false, false, !x, !x)\n}\n"),
+    ("zero-bit-party-between", "pub fn main(x: u8, n: (), z: u8) -> u8 {\n  x ^ z\n}\n"),
+    ("zero-bit-party-first", "pub fn main(n: [u8; 0], x: u8, z: bool) -> u8 {\n  if z { x } else { !x }\n}\n"),
+    ("zero-bit-party-last", "struct Z {}\npub fn main(x: u8, z: bool, n: Z) -> u8 {\n  if z { x } else { !x }\n}\n"),
+    ("zero-bit-parties-two", "pub fn main(m: (), x: u8, n: (), o: [bool; 0]) -> u8 {\n  x + 1u8\n}\n"),
     ("panic-and-output-share-wire", "pub fn main(x: u8, y: u8) -> (u8, bool) {\n  (x / y, y == 0u8)\n}\n"),
 ];
 
@@ -251,7 +255,13 @@ fn check_export(c: &Circuit, site: &str, desc: serde_json::Value, cnt: &ExpCnt, 
             coll.push(Violation::new("C11", site, "import-of-export-refused", "", case(&text), format!("{e:?}")));
             None
         }
-        Ok(Ok(c2)) => Some(c2),
+        Ok(Ok(c2)) => {
+            // same parties (zero-bit ones included): the re-imported circuit is evaluated per party
+            if c2.input_gates != c.input_gates {
+                coll.push(Violation::new("C11", site, "roundtrip-changes-party-shape", "", case(&text), format!("re-imported parties {:?}, original {:?}", c2.input_gates, c.input_gates)));
+            }
+            Some(c2)
+        }
     };
     for inp in input_vectors(&c.input_gates) {
         cnt.evals.fetch_add(1, Ordering::Relaxed);
